@@ -76,7 +76,12 @@ func (hs *heightSub) SetHeight(height uint64) {
 // Wait for a given height to be published.
 // It can return errElapsedHeight, which means a requested height was already seen
 // and caller should get it elsewhere.
-func (hs *heightSub) Wait(ctx context.Context, height uint64) error {
+//
+// The optional available funcs report whether the requested height became available elsewhere.
+// They are checked right before subscribing, with notifications locked out, s.t. a [Notify] that does
+// not advance the height (non-adjacent header) cannot slip in between the caller's own lookup and the
+// subscription and get lost.
+func (hs *heightSub) Wait(ctx context.Context, height uint64, available ...func() bool) error {
 	if hs.Height() >= height {
 		return errElapsedHeight
 	}
@@ -89,6 +94,12 @@ func (hs *heightSub) Wait(ctx context.Context, height uint64) error {
 		// leaving the request never fulfilled and the goroutine deadlocked.
 		hs.heightSubsLk.Unlock()
 		return errElapsedHeight
+	}
+	for _, isAvailable := range available {
+		if isAvailable() {
+			hs.heightSubsLk.Unlock()
+			return errElapsedHeight
+		}
 	}
 
 	sac, ok := hs.heightSubs[height]
